@@ -287,6 +287,9 @@ def run(ctx):
     n, err = _run_scenes(ctx)
     try:
         _source_classes(ctx)
+        _tensor_kernel_pairing(ctx)
+        if ctx.tier == "thorough":
+            _tensor_kernel_pairing(ctx, thorough=True)
     except AnalysisError as e:
         err = err or str(e)
     if err is not None:
@@ -298,6 +301,71 @@ def run(ctx):
     ctx.trusted_base.append("non-uniform scenarios use one opaque metric atom per (axis, stencil) (its value is C01 rule R1.3)")
     ctx.assume("field state satisfies the wall conditions (the symbolic initial fields are projected with the repo's own wall hooks)")
     ctx.assume("real arithmetic: the identities are exact over the rationals extended by the symbolic atoms; round-off is outside the property")
+
+
+def _solve3(it_, a, k):
+    """exact linalg.solve for batches of 3x3 matrices of rational forms (adjugate / determinant)"""
+    L, R = a[0], a[1]
+    if not (isinstance(L, NdArr) and isinstance(R, NdArr) and not L.sp and not R.sp and L.shape[-2:] == (3, 3) and R.shape == L.shape):
+        raise AnalysisError(f"linalg.solve model: operands {getattr(L, 'shape', L)} / {getattr(R, 'shape', R)}")
+    out = []
+    for b in range(len(L.data) // 9):
+        m = [[to_rat(L.data[b * 9 + i * 3 + j]) for j in range(3)] for i in range(3)]
+        r = [[to_rat(R.data[b * 9 + i * 3 + j]) for j in range(3)] for i in range(3)]
+        cof = [[m[(i + 1) % 3][(j + 1) % 3] * m[(i + 2) % 3][(j + 2) % 3] - m[(i + 1) % 3][(j + 2) % 3] * m[(i + 2) % 3][(j + 1) % 3] for j in range(3)] for i in range(3)]
+        det = m[0][0] * cof[0][0] + m[0][1] * cof[0][1] + m[0][2] * cof[0][2]
+        if det.is_zero():
+            raise Raised("LinAlgError", "singular matrix")
+        for i in range(3):
+            for j in range(3):
+                out.append(sum((cof[k_][i] * r[k_][j] for k_ in range(3)), Rat.const(0)) / det)
+    return NdArr(R.shape, out)
+
+
+def _tensor_kernel_pairing(ctx, thorough=False):
+    """R2.6: the lossy full-tensor kernels.  forward: F' = A F + B curl; reverse: F = A_r F' - B_r curl.  The reverse
+    undoes the forward exactly when A_r A = 1 and A_r B = B_r as 3x3 matrices per cell (the sign / operand wiring of
+    the two updates is what the lossless full-tensor round trips of R2.1 decide, where A = 1 and B = c inv)."""
+    ix = ctx.index
+    z = Rat.const(0)
+    names = ("compute_anisotropic_update_matrices", "compute_anisotropic_update_matrices_reverse")
+    fs = [ix.function("fdtdx.fdtd.misc." + nm) for nm in names]
+    for f in fs:
+        ctx.unit(f.where())
+    tiers = [
+        ("diagonal tensors", lambda i, j: Rat.atom(f"a{i}") if i == j else z, lambda i, j: Rat.atom(f"s{i}") if i == j else z),
+        ("symmetric inverse tensor, isotropic conductivity", lambda i, j: Rat.atom(f"a{min(i, j)}{max(i, j)}"), lambda i, j: Rat.atom("s") if i == j else z),
+        ("isotropic inverse tensor, full conductivity", lambda i, j: Rat.atom("a") if i == j else z, lambda i, j: Rat.atom(f"s{i}{j}")),
+    ]
+    if thorough:
+        tiers = [("general tensors", lambda i, j: Rat.atom(f"a{i}{j}"), lambda i, j: Rat.atom(f"s{i}{j}"))]
+    for label, fa, fsg in tiers:
+        inv = NdArr((3, 3, 1, 1, 1), [fa(i, j) for i in range(3) for j in range(3)])
+        sig = NdArr((3, 3, 1, 1, 1), [fsg(i, j) for i in range(3) for j in range(3)])
+        res = []
+        for f in fs:
+            it = ctx.fresh_interp()
+            it.ext_handlers["np.linalg.solve"] = _solve3
+            try:
+                AB = it.call(it.closure_of(f), [inv, sig, Rat.atom("c"), Rat.atom("eta")], {})
+            except Raised as r:
+                raise AnalysisError(f"{f.name} raises: {r}")
+            if not (isinstance(AB, tuple) and len(AB) == 2 and all(isinstance(M, NdArr) and len(M.data) == 9 for M in AB)):
+                raise AnalysisError(f"{f.name} returns {AB!r}")
+            res.append(AB)
+        (A, B), (Ar, Br) = res
+        g = lambda M, i, j: to_rat(M.data[i * 3 + j])
+        bad = []
+        for i in range(3):
+            for j in range(3):
+                p = sum((g(Ar, i, k_) * g(A, k_, j) for k_ in range(3)), Rat.const(0))
+                if not p.equals(1 if i == j else 0):
+                    bad.append((f"(A_r A)[{i}][{j}]", p.fmt()[:200]))
+                q = sum((g(Ar, i, k_) * g(B, k_, j) for k_ in range(3)), Rat.const(0))
+                if not q.equals(g(Br, i, j)):
+                    bad.append((f"(A_r B)[{i}][{j}] vs B_r", q.fmt()[:160], g(Br, i, j).fmt()[:160]))
+        nontrivial = not g(A, 0, 0).equals(1)
+        ctx.ob("R2.6", f"anisotropic-update-matrices[{label}]", not bad and nontrivial, "with conductivity the reverse matrices undo the forward ones per cell: A_r A = 1 and A_r B = B_r (so A_r (A F + B curl) - B_r curl = F)", bad[:2], "identity / B_r")
 
 
 def _source_classes(ctx):
